@@ -238,6 +238,17 @@ fn replay_lines<M: Model>(m: &M, i: Option<usize>) {
     println!("REPLAY-JSONNET: std.manifestJsonMinified({})", e);
     let all: Vec<String> = (0..mlen).map(|k| m.at(k).to_string()).collect();
     println!("REPLAY-EXPECT: value \"[{}]\"", all.join(","));
+    // concatenation consults is_empty()/len()/is_cheap() of the representation
+    let mut with: Vec<String> = all.clone();
+    with.push("100".to_string());
+    println!("REPLAY-JSONNET: ({}) + [100]", e);
+    println!("REPLAY-EXPECT: value [{}]", with.join(","));
+    let mut pre: Vec<String> = vec!["100".to_string()];
+    pre.extend(all.iter().cloned());
+    println!("REPLAY-JSONNET: [100] + ({})", e);
+    println!("REPLAY-EXPECT: value [{}]", pre.join(","));
+    println!("REPLAY-JSONNET: ({}) == [{}]", e, all.join(","));
+    println!("REPLAY-EXPECT: value true");
 }
 
 /// An index the language can pass: `n as usize` of a double (A5).
